@@ -41,6 +41,7 @@ type C10Scn struct {
 	InputOK    bool   // the input can be processed
 	ExpectOK   bool   // the fault-free run is expected to succeed
 	RecordOnly bool   // judged on the fault-free run only (the family of structural cut points)
+	EitherExit bool   // the statement does not say whether the fault-free run succeeds (a stale temporary file is in the way): both exit classes are judged by their own rules
 }
 
 type C10Case struct {
@@ -226,6 +227,13 @@ func c10Scenarios() []C10Scn {
 				Input: "arch" + fam.ext, Target: "arch", Decompress: true, Format: fam.format, Plain: fam.plain, InputOK: false, ExpectOK: false, RecordOnly: true})
 		}
 	}
+	// a stale temporary file (left by a killed earlier run) that is longer than the new output sits
+	// where this run wants to create its own: whether the run refuses or replaces it is not stated,
+	// but success needs a complete target, failure an untouched input
+	add(C10Scn{Name: "z-xz-stale-temp", Args: []string{"file"}, Files: []c10File{f("file", "plain:small"), f("file.xz.compress", "plain:big")}, Input: "file", Target: "file.xz", Format: "xz", Plain: "small", InputOK: true, ExpectOK: true, EitherExit: true})
+	add(C10Scn{Name: "z-lzma-f-stale-temp", Args: []string{"-F", "lzma", "-f", "file"}, Files: []c10File{f("file", "plain:small"), f("file.lzma.compress", "plain:big")}, Input: "file", Target: "file.lzma", Format: "lzma", Plain: "small", InputOK: true, ExpectOK: true, EitherExit: true})
+	add(C10Scn{Name: "d-xz-stale-temp", Args: []string{"-d", "file.xz"}, Files: []c10File{f("file.xz", "xz:small"), f("file.decompress", "plain:big")}, Input: "file.xz", Target: "file", Decompress: true, Format: "xz", Plain: "small", InputOK: true, ExpectOK: true, EitherExit: true})
+	add(C10Scn{Name: "d-xz-kf-stale-temp", Args: []string{"-dkf", "file.xz"}, Files: []c10File{f("file.xz", "xz:small"), f("file.decompress", "xz:big")}, Input: "file.xz", Target: "file", Decompress: true, Format: "xz", Keep: true, Plain: "small", InputOK: true, ExpectOK: true, EitherExit: true})
 	add(C10Scn{Name: "d-bare-suffix", Args: []string{"-d", ".xz"}, Files: []c10File{f(".xz", "xz:small")}, Input: ".xz", Decompress: true, Format: "xz", Plain: "small", InputOK: false, ExpectOK: false})
 	return out
 }
@@ -516,11 +524,11 @@ func (e *c10Env) judge(r *core.Run, s C10Scn, c C10Case, rec []sysx.Call) {
 		if tgtThere && !tgtComplete && !(pre != nil && bytes.Equal(tgtNow, pre)) {
 			r.Violate(cs, site+" → partial-target@"+phase, desc, observed, "no partial file under the target name")
 		}
-		if c.Mode == "record" && s.ExpectOK {
+		if c.Mode == "record" && s.ExpectOK && !s.EitherExit {
 			r.Violate(cs, site+" → fault-free-run-fails", desc, observed, "exit 0")
 		}
 	}
-	if c.Mode == "record" && !s.ExpectOK && res.Exit == 0 && s.InputOK {
+	if c.Mode == "record" && !s.ExpectOK && res.Exit == 0 && s.InputOK && !s.EitherExit {
 		r.Violate(cs, site+" → unexpected-success", desc, observed, "non-zero exit (target exists without -f)")
 	}
 	h := core.Hash(s.Name, outcome, res.Exit, st.names())
